@@ -109,7 +109,12 @@ type ObjectTypeField struct {
 }
 
 func (self ObjectTypeField) String() string {
-	return fmt.Sprintf("%s: %s", FieldKey(self.FieldName.ident), self.Type)
+	// (an annotation such as `@setting` tells the host what the field is for: it belongs to the program)
+	annotationStr := ""
+	if self.Annotation != nil {
+		annotationStr = self.Annotation.Ident() + " "
+	}
+	return fmt.Sprintf("%s%s: %s", annotationStr, FieldKey(self.FieldName.ident), self.Type)
 }
 
 //
